@@ -721,28 +721,59 @@ package main
 
 //@ ghost posFileName string
 
+//@ ghost posHash string
+//@ ghost scanOff int
+//@ ghost skipPending bool
+//@ ghost skipLen int
+//@ ghost keepPending bool
+//@ ghost copiedBefore int
+//@ ghost printedRef ref
+
 //@ hookset fwdpos
 //@ hook after (*go/token.File).Name(f) (r)
 //@   posFileName = r
 //@ hook before mvdan.cc/garble.hashWithPackage(pkg, name)
 //@   assert("forward-key-is-hashed-with-the-package-being-built", pkg == lpkg)
 //@   assert("forward-key-is-base-name-colon-original-offset", name == fmt.Sprintf("%s:%d", filepath.Base(posFileName), origOffset))
+//@   assert("[C10] tiny-builds-hash-no-positions", !flagTiny)
+//@ hook after mvdan.cc/garble.hashWithPackage(pkg, name) (r)
+//@   posHash = r
+//@ hook before fmt.Fprintf(w, format, args...)
+//@   assert("[C02,C10] only-line-directives-are-inserted", format == "//line %s:1\n" || format == " /*line %s%s:1*/ ")
+//@   assert("[C02] directive-prefix-is-empty-or-cgo", newPrefix == "" || newPrefix == "_cgo_")
+//@   if format == " /*line %s%s:1*/ " { assert("[C10] tiny-positions-carry-no-file-name", !flagTiny || newName == "") }
+//@   if format == " /*line %s%s:1*/ " { assert("[C02,C04] position-is-the-hashed-key-dot-go", flagTiny || newName == posHash + ".go") }
+//@ hook after (*go/scanner.Scanner).Scan(sc) (p, t, l)
+//@   skipPending = t == token.COMMENT && !strings.HasPrefix(l, "//go:")
+//@   keepPending = t == token.COMMENT && strings.HasPrefix(l, "//go:")
+//@   copiedBefore = copied
+//@   skipLen = len(l)
+//@ hook after (*go/token.File).Position(f, p) (r)
+//@   scanOff = r.Offset
+//@ hook after (*bytes.Buffer).Bytes(b) (r)
+//@   printedRef = ref(r)
 //@ end
 
 //@ func printFile
-//@   property C04 C02
+//@   property C04 C02 C10 C14
 //@   spec paths.smt2
 //@   hooks fwdpos
 //@   skip safety
 //@   unclaimed hashWithPackage/requires because non-emptiness of the key is immaterial here
 //@   ghost pendingOff int = -1
 //@   ghost nOffsets int = 0
+//@   requires !skipPending && !keepPending
+//@   ensures @plain-packages-are-printed-as-parsed: [C14] !old(lpkg.ToObfuscate) && r1 == nil ==> ref(r0) == printedRef
+//@   ensures @plain-packages-keep-their-comments: [C14] !old(lpkg.ToObfuscate) ==> ref(file.Comments) == old(ref(file.Comments)) && len(file.Comments) == old(len(file.Comments))
 //@   loop 2
 //@     iter if dyntypeis(node, *ast.CallExpr) { pendingOff = fsetFile.Position(node.Pos()).Offset }
 //@     iter if dyntypeis(node, *ast.Ident) { nOffsets = nOffsets + 1 }
 //@     invariant @every-identifier-gets-the-offset-of-the-call-entered-last: nextOffset == pendingOff
 //@     invariant @one-offset-per-identifier: len(origCallOffsets) == nOffsets
 //@     iter if dyntypeis(node, *ast.Ident) { pendingOff = -1 }
+//@   loop 3
+//@     invariant @comments-that-are-not-directives-are-skipped: [C02] skipPending ==> copied == scanOff + skipLen
+//@     invariant @directives-are-copied-with-the-code: [C01,C02] keepPending ==> copied == copiedBefore
 //@ end
 
 // ---- C13/C01: one naming decision, used by the build and by garble map ----
@@ -926,10 +957,10 @@ package main
 //@   assert("x-flag-is-duplicated-under-the-obfuscated-path-and-name", format == "-X=%s.%s=%s" && a0 == xPath && a1 == xHashed && a2 == stringValue)
 //@ hook before mvdan.cc/garble.flagSetValue(f, n, v)
 //@   if n == "-buildid" { assert("[C02] build-id-is-emptied", v == "") }
-//@   if n == "-buildid" { assert("[C02] go-version-is-overridden", exists k int :: 0 <= k && k < len(f) && f[k] == "-X=runtime.buildVersion=unknown") }
+//@   if n == "-buildid" { assert("[C02] go-version-is-overridden", (len(f) >= 1 && f[len(f)-1] == "-X=runtime.buildVersion=unknown") || (exists k int :: 0 <= k && k < len(f) && f[k] == "-X=runtime.buildVersion=unknown")) }
 //@   if n == "-buildid" { idStripped = true }
 //@   if n == "-importcfg" { assert("import-config-is-the-rewritten-one", v == newImportCfg) }
-//@   if n == "-importcfg" { assert("[C02] dwarf-and-symbol-table-are-dropped", exists k int :: 0 <= k && k+1 < len(f) && f[k] == "-w" && f[k+1] == "-s") }
+//@   if n == "-importcfg" { assert("[C02] dwarf-and-symbol-table-are-dropped", (len(f) >= 2 && f[len(f)-2] == "-w" && f[len(f)-1] == "-s") || (exists k int :: 0 <= k && k+1 < len(f) && f[k] == "-w" && f[k+1] == "-s")) }
 //@   if n == "-importcfg" { cfgSet = true }
 //@ end
 
